@@ -2111,13 +2111,34 @@ def run_float_history(funi, cls, cfg, hist):
             bz._tls.solver = None
         solvers, plain, held = [SOLVER_CLASSES[cls]()], [claripy.Solver()], [[]]
         fails, outs = [], []
+        # the bit pattern of a NaN is unspecified (SMT-LIB), and Z3 is not even consistent with itself about it: with f forced
+        # to be NaN every range check on fp.to_ieee_bv(f) answers unsat while the constraints are sat - max() then returns 0
+        # and ConstraintExpansionMixin asserts `bits <= 0`.  A solver that was asked for values of fpToIEEEBV(v) while v
+        # MUST be NaN (says the plain twin) has been fed garbage by the backend: it and its later branches are not judged.
+        tainted = set()
         for k, d in enumerate(hist):
             if d["s"] >= len(solvers):
                 outs.append(("skip",))
                 continue
+            if d["s"] not in tainted and d["op"] in ("eval", "min", "max", "solution") and "fpToIEEEBV" in d["e"]:
+                try:
+                    ex = [funi.parse(c) for c in d.get("extra", [])]
+                    if plain[d["s"]].satisfiable(extra_constraints=ex) and any(
+                            not plain[d["s"]].satisfiable(extra_constraints=ex + [claripy.Not(claripy.fpIsNaN(funi.sym[v]))])
+                            for v in funi.names if re.search(r"\b%s\b" % v, d["e"])):
+                        tainted.add(d["s"])
+                except Exception:  # noqa: BLE001
+                    tainted.add(d["s"])
             out = apply_op(funi, solvers, d)
             pout = apply_op(funi, plain, d)
             outs.append(out)
+            if d["s"] in tainted:
+                if d["op"] == "add":
+                    held[d["s"]] += d["cs"]
+                elif d["op"] == "branch" and out[0] == "ok":
+                    held.append(list(held[d["s"]]))
+                    tainted.add(len(solvers) - 1)
+                continue
             psat, nan_free = True, True
             if d["op"] in ("eval", "min", "max", "solution", "is_true", "is_false"):
                 try:
